@@ -231,6 +231,9 @@ def extend(repo, T, ex):
         if isinstance(n, ast.Compare):
             cops.append(type(n.ops[0]).__name__)
     T["appCheckOps"] = cops
+    # ---- check() reads `self.last_ping_tm` (written concurrently by the ping thread) exactly once: its three tests and the
+    #      guard then judge ONE ping, which is what lets the model treat check() as atomic (F19)
+    T["appCheckReadsPingOnce"] = sum(1 for n in ast.walk(ck) if _is_self_attr(n, "last_ping_tm")) == 1
 
     # ---- _send_ping: last_ping_tm is written before the ping is sent, only when a socket exists
     spg = ex._find(wa.body, ast.FunctionDef, "_send_ping")
